@@ -67,6 +67,20 @@ Theorem C13_first_order_conn : forall t c c',
   \/ (t = "hex2"%string /\ c' = firstn 8 c).
 Proof. exact first_order_conn_cases. Qed.
 
+(* the first-order table over ALL element type names of ELEMENT_TYPES (the
+   harness sweeps the same 19 names through calculate_incidence_matrix with both
+   order1_only values on every run) *)
+Theorem C13_first_order_table : forall t c, In t ELEMENT_TYPES ->
+  first_order_conn t c =
+    if String.eqb t "tet2" then Some (firstn 4 c)
+    else if String.eqb t "hex2" then Some (firstn 8 c)
+    else if existsb (String.eqb t) ["line2"; "tri2"; "quad2"; "pyr2"; "prism2"]%string then None
+    else Some c.
+Proof.
+  intros t c H. simpl in H.
+  repeat (destruct H as [<-|H]; [reflexivity|]). contradiction.
+Qed.
+
 (* distinct ids of the mesh carry over to the pair the code works on, so
    `ids_ok m = true` suffices in every theorem of this file *)
 Theorem C13_effective_ids_ok : forall m o m',
@@ -262,6 +276,12 @@ Theorem C13_graph_e2v_spec : forall A sl st,
      else (r <> c /\ entry A r c = true) \/ (r = c /\ entry A r r = false)).
 Proof. exact graph_e2v_spec. Qed.
 
+(* the comparison form of the stage-wise check (dense rows) determines the
+   COO form `run_query` is compared in *)
+Theorem C13_stage_dense_determines : forall A A' q q',
+  run_gquery_dense A q = run_gquery_dense A' q' -> run_gquery A q = run_gquery A' q'.
+Proof. exact dense_determines. Qed.
+
 Theorem C13_graph_n_hop_reach : forall A n,
   wf_bmat A = true -> squareb A = true ->
   let H := hop_of A n true false in
@@ -320,3 +340,5 @@ Print Assumptions C13_degree_is_neighbour_count.
 Print Assumptions C13_graph_edge_gradient_spec.
 Print Assumptions C13_graph_e2v_spec.
 Print Assumptions C13_graph_n_hop_reach.
+Print Assumptions C13_first_order_table.
+Print Assumptions C13_stage_dense_determines.
